@@ -5,6 +5,7 @@
 -/
 import W2c2Verif.Model.Emit
 import W2c2Verif.Model.Literal
+import W2c2Verif.Gen.Mangle
 
 namespace W2c2Verif.Model
 open W2c2Verif Gen
@@ -41,7 +42,16 @@ def escapeAux : Option UInt8 → List UInt8 → String
 
 def escapeName (bs : List UInt8) : String := escapeAux none bs
 
-def importName (mn : List UInt8 × List UInt8) : String := escapeName mn.1 ++ "__" ++ escapeName mn.2
+/-- the MODULE part of an import's identifier (`wasmCWrite{File,String}EscapedModule`): a leading byte for which one of the regenerated
+    conditions `Gen.Mangle.moduleLeadEscape` holds (a digit; none on a tree without the wrapper) is written as `X%02X`, the rest is
+    escaped as a name of its own -/
+def escapeModule : List UInt8 → String
+  | [] => ""
+  | c :: rest =>
+    if Gen.Mangle.moduleLeadEscape.any (fun a => match a with | .digit => 48 ≤ c.toNat && c.toNat ≤ 57) then "X" ++ hex2 c ++ escapeName rest
+    else escapeName (c :: rest)
+
+def importName (mn : List UInt8 × List UInt8) : String := escapeModule mn.1 ++ "__" ++ escapeName mn.2
 
 def vtName (t : VT) : String := (Gen.valueTypeNames[t.idx]?).getD "?"
 def slotStr (s : Slot) : String := slotName s.ty s.idx
